@@ -52,6 +52,7 @@ extern "C" int LLVMFuzzerTestOneInput(const uint8_t* data, size_t size) {
     if (!(PM == 0 || (mm.mask & PM))) continue;
     std::string why = std::string("[") + cat_name(mm.cat) + "] at op " + std::to_string(mm.op_index) + ": " + mm.msg;
     std::string s = "# engine=W prop=" + g_prop + " profile=" + g_profile + "\n# perm=" + std::to_string(perm) + "\n";
+    if (const char* e = getenv("W_COLD")) if (*e == '1') s += "# coldcall: the process made one accepted call before any reporter was installed\n";
     std::istringstream w(why);
     std::string l;
     while (std::getline(w, l)) s += "# " + l + "\n";
